@@ -535,8 +535,9 @@ func (p *Program) canon(fn *Func, x ast.Expr, depth int) string {
 						}
 					}
 				}
-				if fvar, isVar := sel.Obj().(*types.Var); isVar && fvar.Embedded() && isStructOrPtr(fvar.Type()) {
-					// s.sub.f with sub embedded is the promoted field s.f
+				if fvar, isVar := sel.Obj().(*types.Var); isVar && ((fvar.Embedded() && isStructOrPtr(fvar.Type())) || p.isPartField(fvar)) {
+					// s.sub.f with sub embedded is the promoted field s.f; so is s.part.f when part is a by-value
+					// sub-struct that belongs to this struct alone
 					b := p.canon(fn, v.X, depth+1)
 					if strings.HasPrefix(b, "&recv") {
 						b = b[1:]
@@ -546,6 +547,9 @@ func (p *Program) canon(fn *Func, x ast.Expr, depth int) string {
 				base := p.canon(fn, v.X, depth+1)
 				if strings.HasPrefix(base, "&var:") || strings.HasPrefix(base, "&local:") || strings.HasPrefix(base, "&recv") || strings.HasPrefix(base, "&param:") {
 					base = base[1:] // (&x).f is x.f
+				}
+				if fvar, isVar := sel.Obj().(*types.Var); isVar {
+					return base + "." + p.FieldName(fvar)
 				}
 				return base + "." + sel.Obj().Name()
 			default:
@@ -746,6 +750,9 @@ func (p *Program) getterField(f *types.Func) string {
 			return ""
 		}
 		if sel, ok := def.Info().Selections[se]; ok && sel.Kind() == types.FieldVal {
+			if fvar, isVar := sel.Obj().(*types.Var); isVar {
+				return p.FieldName(fvar)
+			}
 			return sel.Obj().Name()
 		}
 		return ""
@@ -897,8 +904,15 @@ func litField(lit *ast.CompositeLit, name string) ast.Expr {
 // helper that was looked into on the current path) are searched too. resolved is false when a part could
 // not be traced to a literal, i.e. "not set" is not known.
 func (p *Program) litFieldDeep(fn *Func, lit *ast.CompositeLit, name string, depth int) (val ast.Expr, in *Func, resolved bool) {
-	if v := litField(lit, name); v != nil {
-		return v, fn, true
+	for _, el := range lit.Elts {
+		if kv, ok := el.(*ast.KeyValueExpr); ok {
+			if id, ok := kv.Key.(*ast.Ident); ok {
+				// (the key may spell the field differently: a role played under another name)
+				if fv, isVar := fn.Info().Uses[id].(*types.Var); (isVar && p.FieldName(fv) == name) || id.Name == name {
+					return kv.Value, fn, true
+				}
+			}
+		}
 	}
 	resolved = true
 	if depth > 3 {
